@@ -115,6 +115,7 @@ type propRun struct {
 	wall      float64
 	nodes     int
 	trivial   int
+	vacuity   map[string]int
 }
 
 func selectFunctions(p *Program, prop string) []string {
@@ -219,6 +220,26 @@ func runProperty(p *Program, prop string, budget int, known map[string]bool) *pr
 	pr.nodes = len(jobs)
 	var wg sync.WaitGroup
 	sem := make(chan struct{}, 16)
+	// vacuity guard: the preconditions (and global assumptions) of every function must be satisfiable;
+	// only a definite `unsat` is a failure (quantified formulas rarely give `sat`)
+	for _, rep := range pr.reports {
+		rep := rep
+		if rep.exec == nil || rep.exec.reqNode == nil || rep.Aborted != "" {
+			continue
+		}
+		wg.Add(1)
+		sem <- struct{}{}
+		go func() {
+			defer wg.Done()
+			defer func() { <-sem }()
+			q := rep.exec.buildFeasibility(rep.exec.reqNode)
+			r := runSolver(solvers[0], q, 2, false)
+			rep.ReqSat = r.Status
+			if r.Status != "unsat" && r.Status != "sat" {
+				rep.ReqSat = "no-contradiction-found"
+			}
+		}()
+	}
 	for _, j := range jobs {
 		j := j
 		wg.Add(1)
@@ -383,6 +404,19 @@ func cmdCheck(cfg Config, prop, tier string) int {
 			aborted[rep.Key] = rep.Aborted
 		}
 	}
+	vac := map[string]int{}
+	var vacuous []string
+	for _, rep := range pr.reports {
+		st := rep.ReqSat
+		if st == "" {
+			st = "not-checked"
+		}
+		vac[st]++
+		if rep.ReqSat == "unsat" {
+			vacuous = append(vacuous, rep.Key)
+		}
+	}
+	pr.vacuity = vac
 	report := func(name, why string, s *oblSummary, hasCex bool) {
 		if f, ok := known[name]; ok {
 			fmt.Printf("KNOWN-FINDING: property=%s %s %s\n", prop, name, f.What)
@@ -415,6 +449,9 @@ func cmdCheck(cfg Config, prop, tier string) int {
 			}
 		}
 		fmt.Printf("VIOLATION property=%s replay=%s%s\n", prop, rp, suffix)
+	}
+	for _, k := range vacuous {
+		report(k+"#requires-sat:preconditions-satisfiable", "the preconditions assumed for this function are contradictory: every obligation of it holds vacuously", nil, false)
 	}
 	for _, name := range pr.order {
 		s := pr.summaries[name]
@@ -622,6 +659,7 @@ func writeEvidence(cfg Config, p *Program, pr *propRun, tier string, seed, viola
 		"known_findings_hit":       knownHit,
 		"bounded":                  []string{},
 		"missing_functions":        pr.missing,
+		"vacuity_guard":            map[string]interface{}{"what": "satisfiability of each function's preconditions plus global assumptions (definite unsat = failure)", "functions_by_answer": pr.vacuity},
 	}
 	e := ev{PropertyID: pr.prop, Tier: tier, Seed: seed, Level: "proof", Coverage: cov, Assumptions: assumptions, WallS: wall, Violations: violations}
 	os.MkdirAll(filepath.Join(cfg.Verif, "evidence"), 0o755)
